@@ -191,7 +191,7 @@ def main(argv=None):
         if r.get('canary'):
             if r['status'] == 'refuted' and (r.get('replay') or {}).get('confirmed'):
                 canaries += 1
-            elif r['status'] == 'out-of-reach':
+            elif r['status'] == 'out-of-reach' or (r['status'] == 'unknown' and 'tolerance-based test' in (r.get('error') or '')):
                 canary_out_of_reach.append(r['oid'])
             elif r['status'] == 'error' and (r.get('bounded') or {}).get('found'):
                 # the traced real code itself fails on the canary's scenario (natively too): not a vacuity problem of
